@@ -13,6 +13,10 @@ silently when the target is not bracketed.  Decided:
          the equivalent tube is built with the original's mass flow, fluid, soil, pipe roughness and pipe
          rhoCp, its own deep-copied borehole and grout; both multi-pipe classes run
          volumes -> equivalent_single_u_tube -> match_effective_borehole_resistance and return that tube
+  R15.4  the grout search re-evaluates Rb* for every trial conductivity (pygfunction's resistances are refreshed) -
+         known finding F14 on the pinned tree
+  R15.5  table rules: the two conductivity searches are bracketed widely enough ([k_p'/100, 10 k_p'], [0.01, 7.0] W/m-K)
+         and stop within abs 2e-5 W/m-K / rel 1e-3 (the tolerance in force at the call, explicit or solve_root's default)
 """
 from __future__ import annotations
 
